@@ -397,7 +397,11 @@ func (b *Bucket) MoveBucket(key []byte, dstBucket *Bucket) (err error) {
 		return errors.ErrIncompatibleValue
 	}
 
-	// remove the sub-bucket from the source bucket
+	// remove the sub-bucket from the source bucket; a cached child (which
+	// may hold uncommitted changes) moves along with its key.
+	if child := b.buckets[string(newKey)]; child != nil {
+		dstBucket.buckets[string(newKey)] = child
+	}
 	delete(b.buckets, string(newKey))
 	c.node().del(newKey)
 
